@@ -4,11 +4,23 @@ repository code.  Run by the interpreter of the test suite:
 """
 import importlib
 import json
+import signal
 import sys
 import traceback
 import warnings
 
 from .api import ConcApi, CaseSkip
+
+
+class _Timeout(Exception):
+    pass
+
+
+def _on_alarm(signum, frame):
+    raise _Timeout("concrete run exceeded its time limit")
+
+
+signal.signal(signal.SIGALRM, _on_alarm)
 
 
 def run_job(mod, job):
@@ -17,15 +29,18 @@ def run_job(mod, job):
                   rtol=getattr(mod, "RTOL", 1e-9))
     out = {"case": job["case"]}
     try:
+        signal.alarm(int(job.get("timeout", 30)))
         with warnings.catch_warnings():
             warnings.simplefilter("ignore")
             case.fn(api)
+        signal.alarm(0)
         out["failures"] = api.failures
         out["checks"] = api.checks
         out["used"] = api.used
-    except CaseSkip as e:
-        out["skipped"] = str(e)
+    except (CaseSkip, _Timeout) as e:
+        out["skipped"] = str(e) or type(e).__name__
     except BaseException as e:    # noqa
+        signal.alarm(0)
         out["error"] = "%s: %s\n%s" % (type(e).__name__, e, traceback.format_exc()[-1500:])
     return out
 
